@@ -228,6 +228,8 @@ def run_scenario(sc, chooser=None, seed=0, max_steps=6000):
         finally:
             if self is q.lock:
                 st["in_wait"].discard(me)
+                if till is not None:
+                    st["stall_parked"].discard(id(till))     # an old stall timer firing later resumes nobody: not an event
         if self is q.lock and not sched.abort:
             sched.note("wake", me.name[1:], bool(r))
             # C20: a thread that keeps coming back from lock.wait() although nothing happened in between
@@ -365,9 +367,14 @@ def run_scenario(sc, chooser=None, seed=0, max_steps=6000):
             sched.wait_cond(ready)
             for owner, x in st["stalls"]:
                 if id(x) in st["stall_parked"] and not ds.raw(x, "_go"):
-                    sched.note("env", "stall", owner)
-                    st["external"] += 1
-                    x.go()
+                    vt = sched.me()
+                    vt.atomic += 1            # the trace line and the trigger are one event (this thread runs in the background:
+                    try:                      # the run may end between two of its steps)
+                        sched.note("env", "stall", owner)
+                        st["external"] += 1
+                        x.go()
+                    finally:
+                        vt.atomic -= 1
                     break
     if not silent and sc.get("nstall", 0):
         sched.spawn("staller", staller, background=True)
